@@ -330,8 +330,13 @@ def selCanon (orderInsensitive caseInsensitive timeInsensitive : List String) (f
     the stored one: it is the origin's answer to the client, not a validation result. -/
 def isValidationOf (stored call : Header) : Bool :=
   let own (v : Str) : List Str := if v.isEmpty then [] else [v]
-  Header.values call sIfNoneMatch = own (Header.get stored sETag) &&
-  Header.values call sIfModifiedSince = own (Header.get stored sLastModified)
+  let nonEmpty (l : List Str) : List Str := l.filter (!·.isEmpty)
+  if !(Header.get stored sETag).isEmpty then
+    -- the stored ETag is what the origin evaluates; it ignores If-Modified-Since then (RFC 9110 §13.2.2)
+    nonEmpty (Header.values call sIfNoneMatch) = [Header.get stored sETag]
+  else
+    nonEmpty (Header.values call sIfNoneMatch) = [] &&
+    nonEmpty (Header.values call sIfModifiedSince) = own (Header.get stored sLastModified)
 
 /-- the q-value classes (Accept, Accept-Charset, Accept-Language, Accept-Encoding, TE): what a cache makes of
     weights, parameters and wildcards is its own business (glue), but for a value that is a list of PLAIN
